@@ -69,6 +69,8 @@ type Scenario struct {
 	Ops     []Op     `json:"ops"`
 	// EpiExtra: the epilogue asks with limit = largest transaction + EpiExtra (a sufficient limit).
 	EpiExtra int `json:"epi_extra"`
+	// ContentIDs: the DA layer derives a blob's id from (height, content): identical blobs at one height share an id.
+	ContentIDs bool `json:"content_ids,omitempty"`
 }
 
 // ---------------------------------------------------------------------------------------------
@@ -202,6 +204,7 @@ func genHistory(t *rapid.T) Scenario {
 	sc.Ops = genOps(t, rapid.IntRange(1, world.Scale(14, 40)).Draw(t, "nops"), true, true)
 	sc.EpiExtra = rapid.SampledFrom([]int{0, 0, 1, 7, 100, 100000}).Draw(t, "epiextra")
 	addHuge(t, &sc)
+	sc.ContentIDs = rapid.IntRange(0, 2).Draw(t, "contentids") == 0
 	return sc
 }
 
@@ -220,6 +223,7 @@ func genStable(t *rapid.T) Scenario {
 	sc.Ops = genOps(t, rapid.IntRange(1, world.Scale(12, 30)).Draw(t, "nops"), true, false)
 	sc.EpiExtra = rapid.SampledFrom([]int{0, 1, 100}).Draw(t, "epiextra")
 	addHuge(t, &sc)
+	sc.ContentIDs = rapid.IntRange(0, 2).Draw(t, "contentids") == 0
 	return sc
 }
 
@@ -303,6 +307,10 @@ func newWorld(sc Scenario) (*wrld, error) {
 		head = sc.Start - 1
 	}
 	w.da = world.NewDADbl(head)
+	w.da.ContentIDs = sc.ContentIDs
+	if sc.ContentIDs {
+		w.labels["content-derived-ids"] = true
+	}
 	idx := 0
 	for hi, h := range sc.Heights {
 		for pos, x := range h.Txs {
